@@ -221,6 +221,8 @@ def check_deciders(h: Harness):
     for lo in los:
         for w in widths:
             cases.append((lo, lo + w))
+    # odd widths whose half is a power n**e the draw can produce (1023, 1457, 1999, 4801, 8191, 13121, 19999)
+    cases += [(-1000, 999), (1, 2000), (0, 1023), (-728, 729), (0, 4801), (5, 8196), (-6560, 6561), (0, 19999)]
     for lo, hi in cases:
         width = hi - lo
         E = round(log10(width)) if width > 1000 else 0
@@ -232,6 +234,9 @@ def check_deciders(h: Harness):
                         scripts.append([n, e, b])
             for _ in range(h.n(4, 40)):
                 scripts.append([rng.randrange(11), rng.randrange(E + 1), rng.randrange(2)])
+            if width < 30000:
+                # all (n, e, sign) draws for the moderately wide ranges
+                scripts = [[n, e, b] for n in range(11) for e in range(E + 1) for b in (0, 1)]
         else:
             scripts = [[d] for d in sorted({0, 1, width, width + 1, width // 2})]
         for sc in scripts:
@@ -322,7 +327,7 @@ def check_same_genes_same_stream(h: Harness):
         out = []
         for i in range(n):
             lo = rng.randint(-5, 5)
-            out.append((rng.choice(["randint", "randint", "choice", "bool", "weighted", "shuffle"]), lo, lo + rng.choice([0, 1, 2, 9, 1000])))
+            out.append((rng.choice(["randint", "randint", "choice", "bool", "weighted", "shuffle", "normal", "normal", "float"]), lo, lo + rng.choice([0, 1, 2, 9, 1000])))
         return out
 
     def draw(src, op, key):
@@ -335,6 +340,10 @@ def check_same_genes_same_stream(h: Harness):
             return src.random_bool()
         if kind == "weighted":
             return src.choice_weighted(["a", "b", "c"], [1, 2, 1])
+        if kind == "normal":
+            return src.normalvariate(float(lo), 1.0 + (hi - lo))
+        if kind == "float":
+            return src.random_float(float(lo), float(hi) + 0.5)
         return tuple(src.shuffle([1, 2, 3, 4]))
 
     for _ in range(h.n(60, 600)):
